@@ -291,6 +291,7 @@ for _p in UNITS["U6"]["parts"]:
         _p9.append(("file", "spec/pfbmap.rs"))
         _p9.append(("file", "spec/pfedns.rs"))
         _p9.append(("file", "spec/pfmut_q.rs"))
+        _p9.append(("file", "spec/walk.rs"))
     if _p[0] == "struct" and _p[2] == "ParsedPacket":
         pass
 _p9 += [("impl", "compress.rs", "Compress", ["check_compressed_name"], "external"), ("struct", "synth/gen.rs", "RR", ["pubfields"]), ("impl", "dns_sector.rs", "DNSSector", ["set_qdcount", "set_ancount", "set_nscount", "set_arcount"]),
